@@ -8,6 +8,8 @@ func FindScenario(name string) *explore.Scenario {
 	all = append(all, c18Scenarios()...)
 	all = append(all, c03Scenarios()...)
 	all = append(all, c06Scenarios()...)
+	all = append(all, c04Scenarios()...)
+	all = append(all, c17Scenarios()...)
 	for _, sc := range all {
 		if sc.Name == name {
 			return sc
